@@ -1681,4 +1681,51 @@ theorem getStrSpec_bytes (base : Int) (hb : LegalOutBase base) (x : Int) : ∀ c
     · simp only [hx, if_true, List.mem_singleton] at hd; omega
     · simp only [hx, if_false] at hd; exact digitsOf_lt hb2.1 _ d hd
 
+/-! ### sizeinbase -/
+
+/-- number of base-2^k digits of a number of exactly `bits` bits -/
+theorem digits_len_pow2 {k bits W : Nat} (hk : 0 < k) (hbits : 0 < bits) (hlo : 2 ^ (bits - 1) ≤ W) (hhi : W < 2 ^ bits) :
+    (digitsOf (2 ^ k) W).length = (bits + k - 1) / k := by
+  have hm := Nat.div_add_mod (bits + k - 1) k
+  have hr := Nat.mod_lt (bits + k - 1) hk
+  generalize (bits + k - 1) / k = m at *
+  generalize (bits + k - 1) % k = r at *
+  have hmpos : 0 < m := by
+    rcases Nat.eq_zero_or_pos m with h | h
+    · subst h; omega
+    · exact h
+  have hD : 2 ≤ 2 ^ k := by
+    calc 2 = 2 ^ 1 := rfl
+      _ ≤ 2 ^ k := Nat.pow_le_pow_right (by omega) hk
+  rw [digitsOf_eq_fixed hD hmpos ?_ ?_, fixedDigits_length]
+  · rw [← pow_mul]
+    refine le_trans (Nat.pow_le_pow_right (by omega) ?_) hlo
+    have : k * (m - 1) = k * m - k := by rw [Nat.mul_sub, Nat.mul_one]
+    rw [this]; omega
+  · rw [← pow_mul]
+    exact lt_of_lt_of_le hhi (Nat.pow_le_pow_right (by omega) (by omega))
+
+theorem sizeinbase_pow2_of_table {b : Nat} (hok : Pow2Ok b) (hp : pow2P b = true) (x : Int) :
+    mpz_sizeinbase x b = if x = 0 then 1 else (digitsOf b x.natAbs).length := by
+  obtain ⟨hpow, hbpd, _, _⟩ := hok
+  unfold mpz_sizeinbase sizeinbase
+  by_cases hx : x = 0
+  · subst hx; simp [natLimbs_zero]
+  · have hxn : x.natAbs ≠ 0 := by omega
+    obtain ⟨t1, t2⟩ := natLimbs_top _ hxn
+    obtain ⟨v1, v2⟩ := val_natLimbs x.natAbs
+    obtain ⟨_, hl63, hlo, hhi⟩ := bitlen_bounds v2 t1 t2
+    have hl : ((natLimbs x.natAbs).length == 0) = false := by
+      cases h : natLimbs x.natAbs with
+      | nil => exact absurd h t1
+      | cons a l => rfl
+    simp only [hl, Bool.false_eq_true, if_false, hp, if_true, hx]
+    rw [v1] at hlo hhi
+    rw [Nat.mul_comm (natLimbs x.natAbs).length 64]
+    have hpos : 0 < 64 * (natLimbs x.natAbs).length - clz (natLimbs x.natAbs).getLast! := by
+      have : 0 < (natLimbs x.natAbs).length := List.length_pos_iff.mpr t1
+      unfold clz; omega
+    conv_rhs => rw [← hpow]
+    exact (digits_len_pow2 hbpd hpos hlo hhi).symm
+
 end Mpir.Radix
